@@ -34,6 +34,15 @@ func (st *batchStats) add(b *Batch, obs *BatchObs) {
 	if obs.Panic != "" {
 		st.Panics = append(st.Panics, fmt.Sprintf("batch %d: %s", b.ID, obs.Panic))
 	}
+	if obs.DirectRan && obs.DirectCalls != len(obs.Calls) && obs.ExecErr == "" && obs.Panic == "" {
+		dist := map[string]bool{}
+		for _, n := range b.Invs {
+			dist[n] = true
+		}
+		if len(dist) == len(b.Invs) {
+			st.Inconsistent = append(st.Inconsistent, map[string]any{"batch": b.ID, "what": "ServerView.Run ran a different number of handlers than the batch path", "batch_calls": len(obs.Calls), "run_calls": obs.DirectCalls})
+		}
+	}
 	seen := map[string]bool{}
 	sig := fmt.Sprintf("n=%d err=%v calls=%d:", len(b.Invs), obs.ExecErr != "", len(obs.Calls))
 	for _, n := range b.Invs {
@@ -46,6 +55,9 @@ func (st *batchStats) add(b *Batch, obs *BatchObs) {
 		st.Classes[r.Class]++
 		sig += r.Class + ","
 		// direct checks of the property on the implementation's answer
+		if r.Found && r.Direct != "" && r.Direct != r.Class {
+			st.Inconsistent = append(st.Inconsistent, map[string]any{"batch": b.ID, "invocation": r.Inv, "what": "ServerView.Run answers differently from the batch path", "batch_class": r.Class, "run_class": r.Direct})
+		}
 		if r.Found && r.Decoded && (r.Ran != r.Inv || r.Issuer != b.W.Ctx.Authority.DID.String()) {
 			st.Inconsistent = append(st.Inconsistent, map[string]any{"batch": b.ID, "invocation": r.Inv, "ran": r.Ran, "issuer": r.Issuer})
 		}
